@@ -155,6 +155,34 @@ func checkC01(tr *CycleTrace, rep *ReplicaTrace, r Reporter) {
 			}
 		}
 	}
+	// (b') the same, judged on what the harness knows the shard really scrapes: a shard whose status
+	// request was not answered in this cycle reports nothing - the targets it scrapes must not be taken
+	// away from it on the strength of that (only applies where the harness knows the truth)
+	for _, s := range rep.Shards {
+		if s.Truth == nil || s.Post == nil || !s.PostDelivered || s.StatusOK {
+			continue
+		}
+		for _, h := range sortedHashes(s.Truth) {
+			if _, still := s.Post[h]; still {
+				continue
+			}
+			if _, act := tr.Active[h]; !act {
+				continue
+			}
+			other := false
+			for _, o := range rep.Shards {
+				if o != s && o.InSync {
+					if _, ok := o.Rep[h]; ok {
+						other = true
+					}
+				}
+			}
+			if !other {
+				r.Report("C01", "unjustified-removal", "state=unreported",
+					fmt.Sprintf("replica %s: %s did not answer its status request in this cycle, yet it was sent a target list without active target %d, which it scrapes and no other in-sync shard reports", rep.ID, s.ID, h))
+			}
+		}
+	}
 	if tr.Deadlock {
 		r.Report("C01", "deadlock", "", "the cycle did not finish: coordinator goroutine blocked with no request in flight")
 	}
